@@ -1,39 +1,131 @@
 ---------------------------- MODULE PacketProps ----------------------------
 (***************************************************************************)
-(* The listed properties as predicates over runs of the machines of         *)
-(* Packet.tla.  MC_* modules evaluate them as invariants on the model's own *)
-(* runs; Trace_* modules evaluate them on recorded runs of the real code.   *)
+(* The listed packet-level properties as predicates over OBSERVATIONS of    *)
+(* one unpack run and one pack run:                                         *)
+(*   u = [st, endc, err, reads, evs, result]   st "done" | "fail" | "escape"*)
+(*   p = [st, out, err, writes, evs]           st also "none" (not run)     *)
+(* MC_* modules apply them to the machines' own runs (UObsOf / PObsOf);     *)
+(* Trace_Packet applies the very same predicates to observations recorded   *)
+(* from the real code, so the property is evaluated by TLC on both sides.   *)
 (***************************************************************************)
 EXTENDS Packet
 
+UObsOf(m) == [st |-> m.st, endc |-> m.cur, err |-> m.err, reads |-> m.reads, evs |-> m.evs,
+              result |-> m.result]
+NoPObs == [st |-> "none", out |-> <<>>, err |-> <<>>, writes |-> <<>>, evs |-> <<>>]
+PObsOf(p) == IF p.st = "none" THEN NoPObs
+             ELSE [st |-> p.st, out |-> p.out, err |-> p.err, writes |-> p.writes, evs |-> p.evs]
+
 \* ------------------------------------------------ sanity of the machine
-MachineSane(dp, raw, start, m) ==
+MachineSane(raw, m) ==
     /\ m.st \in {"run", "unwind", "done", "fail"}
     /\ (m.st = "done") => m.result.t = "pkt"
-    /\ \A i \in 1..Len(m.reads) : m.reads[i].lo >= 0 /\ m.reads[i].hi <= Len(raw) /\ m.reads[i].lo <= m.reads[i].hi
+    /\ \A i \in 1..Len(m.reads) :
+          m.reads[i].lo >= 0 /\ m.reads[i].hi <= Len(raw) /\ m.reads[i].lo <= m.reads[i].hi
+
+ValueReads(u) == {i \in 1..Len(u.reads) : ~u.reads[i].window}
+RangeOf(r) == r.lo .. (r.hi - 1)
+Consumed(u) == UNION {RangeOf(u.reads[i]) : i \in ValueReads(u)}
+MaxSet(S, dflt) == IF S = {} THEN dflt ELSE CHOOSE x \in S : \A y \in S : y <= x
+\* the furthest position the parse reached
+Traversed(u, start) ==
+    MaxSet({u.reads[i].hi : i \in ValueReads(u)} \cup {u.evs[i].e : i \in 1..Len(u.evs)} \cup {u.endc, start}, start)
 
 \* ------------------------------------------------------------------ C04
-\* a successful unpack decoded every value from exactly the bytes it asked for,
-\* all of them inside the input: no slice of a finished parse was clipped.
-\* (scan windows are exempt: they are bounded by the buffer end by design)
-C04_Exact(raw, m) ==
-    m.st = "done" =>
-        \A i \in 1..Len(m.reads) :
-            LET r == m.reads[i] IN
-            r.want >= 0 /\ (r.window \/ (r.hi - r.lo = r.want))
-
-\* ------------------------------------------------------------------ C12
-C12_StackShape(dp, err) ==
-    /\ Len(err) >= 1
-    /\ \A i \in 1..Len(err) : err[i].cls \in DOMAIN dp /\ err[i].off >= 0
-          /\ \E j \in 1..Len(dp[err[i].cls].fields) : dp[err[i].cls].fields[j].name = err[i].name
+\* a successful unpack decoded every value from exactly the bytes it asked for, all inside
+\* the input: no slice of a finished parse was clipped, no negative size accepted.
+C04_Exact(raw, u) ==
+    u.st = "done" =>
+        \A i \in ValueReads(u) :
+            LET r == u.reads[i] IN
+            r.want >= 0 /\ r.hi - r.lo = r.want /\ r.lo >= 0 /\ r.hi <= Len(raw)
 
 \* ------------------------------------------------------------------ C01
-\* positions consumed by value-bearing reads (relative to the start offset)
-Consumed(m) == UNION {m.reads[i].lo .. (m.reads[i].hi - 1) : i \in {j \in 1..Len(m.reads) : ~m.reads[j].window}}
+C01_Bytes(raw, start, u, p) ==
+    (u.st = "done" /\ p.st = "done") =>
+        \A q \in Consumed(u) : q >= start =>
+            (q - start + 1 <= Len(p.out) /\ p.out[q - start + 1] = raw[q + 1])
 
-C01_RoundTrip(dp, raw, start, m, p) ==
-    p.st = "done" =>
-        /\ \A q \in Consumed(m) : q >= start =>
-              (q - start + 1 <= Len(p.out) /\ p.out[q - start + 1] = raw[q + 1])
+\* positions a delimiter scan looked at (a consumed delimiter lies there, outside the value)
+WindowCovered(u) == UNION {RangeOf(u.reads[i]) : i \in {j \in 1..Len(u.reads) : u.reads[j].window}}
+
+C01_Fill(raw, start, u, p) ==
+    (u.st = "done" /\ p.st = "done") =>
+        \A i \in 1..Len(p.out) :
+            ((start + i - 1) \notin Consumed(u) /\ (start + i - 1) \notin WindowCovered(u)) => p.out[i] = FILL
+
+C01_Len(raw, start, u, p) ==
+    (u.st = "done" /\ p.st = "done") => Len(p.out) <= Traversed(u, start) - start
+
+Overlapping(u) == \E i, j \in ValueReads(u) : i < j /\ RangeOf(u.reads[i]) \cap RangeOf(u.reads[j]) # {}
+
+\* the failing write of a pack (last entry of the write log, if it is a refused insert)
+LastWriteRefused(p) == Len(p.writes) > 0 /\ p.writes[Len(p.writes)].op = "ins" /\ ~p.writes[Len(p.writes)].ok
+
+\* overlap => pack raises;  pack raises => overlap (pack() must otherwise return the bytes)
+C01_OverlapRaises(u, p) == (u.st = "done" /\ p.st \in {"done", "fail"} /\ Overlapping(u)) => p.st = "fail"
+\* named deviation F5 at packet level: the refused insert touches no occupied byte
+\* (F5a: its span covers the position of an empty chunk; F5b: it is itself empty)
+OccupiedBefore(writes, k) ==
+    UNION {writes[i].p .. (writes[i].p + Len(writes[i].s) - 1) :
+              i \in {j \in 1..(k - 1) : writes[j].op = "ins" /\ writes[j].ok}}
+FalseCollisionObs(p) ==
+    /\ p.st = "fail" /\ LastWriteRefused(p)
+    /\ LET k == Len(p.writes) w == p.writes[k] IN
+          (w.p .. (w.p + Len(w.s) - 1)) \cap OccupiedBefore(p.writes, k) = {}
+\* named deviation F10b: a relative move went in front of the start offset (still >= 0, so
+\* the parse reads bytes before the data; on output the same move is negative and refused)
+BeforeStart(start, u) ==
+    \/ \E i \in 1..Len(u.reads) : u.reads[i].lo < start
+    \/ \E i \in 1..Len(u.evs) : u.evs[i].e < start
+C01_RaiseOnlyOnOverlap(start, u, p) ==
+    (u.st = "done" /\ p.st = "fail") => (Overlapping(u) \/ FalseCollisionObs(p) \/ BeforeStart(start, u))
+Dev_F5(u, p) == u.st = "done" /\ p.st = "fail" /\ ~Overlapping(u) /\ FalseCollisionObs(p)
+Dev_F10b(start, u) == u.st = "done" /\ BeforeStart(start, u)
+
+\* ------------------------------------------------------------------ C10
+FieldByName(dp, cls, name) ==
+    LET fs == dp[cls].fields IN fs[CHOOSE j \in 1..Len(fs) : fs[j].name = name]
+
+\* every described field ends, on output, at the same position relative to the start of the
+\* data as it did on input (generic code: both event lists are complete)
+C10_Same(dp, start, u, p) ==
+    (u.st = "done" /\ p.st = "done" /\ Len(u.evs) = Len(p.evs)) =>
+        \A i \in 1..Len(u.evs) :
+            /\ u.evs[i].cls = p.evs[i].cls /\ u.evs[i].name = p.evs[i].name
+            \* members of a bit run share one integer read with the first and written with the last
+            /\ FieldByName(dp, u.evs[i].cls, u.evs[i].name).k # "Bits" => u.evs[i].e - start = p.evs[i].e
+
+\* alignment advances by the least amount (< a) that makes the position a multiple of a,
+\* relative to the declared reference point; evaluated on the events of Move pseudo-fields
+C10_Least(dp, u) ==
+    u.st = "done" =>
+        \A i \in 1..Len(u.evs) :
+            LET ev == u.evs[i]
+                f == FieldByName(dp, ev.cls, ev.name) IN
+            (f.k = "Move" /\ f.mv.kind = "aligned" /\ f.mv.arg.m = "const" /\ f.mv.ref \in {"begins", "current-offset"}) =>
+                LET a == f.mv.arg.v
+                    ref == IF f.mv.ref = "begins" THEN 0 ELSE ev.b IN
+                /\ ev.e >= ev.b /\ ev.e - ev.b < a
+                /\ (ev.e - ref) % a = 0
+
+\* ------------------------------------------------------------------ C12
+C12_Shape(dp, err) ==
+    /\ Len(err) >= 1
+    /\ \A i \in 1..Len(err) : err[i].cls \in DOMAIN dp
+
+\* --------------------------------------------------------------- C14 / C03
+\* two observations of the same declaration, the second with everything shifted by d
+ShiftErr(err, d) == [i \in 1..Len(err) |-> [err[i] EXCEPT !.off = @ + d]]
+C14_Lockstep(u1, u2, d) ==
+    /\ u1.st = u2.st
+    /\ u1.st = "done" => (u1.result = u2.result /\ u2.endc = u1.endc + d)
+    /\ u1.st = "fail" => u2.err = ShiftErr(u1.err, d)
+
+C03_SameU(u1, u2) ==
+    /\ u1.st = u2.st
+    /\ u1.st = "done" => (u1.result = u2.result /\ u1.endc = u2.endc)
+C03_SameP(p1, p2) ==
+    /\ p1.st = p2.st
+    /\ p1.st = "done" => p1.out = p2.out
 =============================================================================
